@@ -14,7 +14,7 @@ pyparsing semantics assumed (tied by the correspondence check, see notes/C01.md)
   `[element, amount]` pair of the (already summed) sub-formula by the group's count and splices the pairs into the
   parent; `sumByElement` sums per element in order of first occurrence (and is the identity without duplicates);
 * `parseAll=True` skips trailing whitespace and then requires the end of the string.
-Outside the modelled domain: non-ASCII digits (`\d`, `int()`), `_`/blanks/sign inside the charge number.
+Outside the modelled domain: non-ASCII digits (`\d`, `int()`) and non-ASCII whitespace inside the charge number.
 -/
 import ChemModel.Gen.Periodic
 import ChemModel.Gen.FormulaLex
@@ -229,9 +229,34 @@ def formulaToParts (prefixes suffixes : List (List Char)) (s : List Char) : Exce
     else let (a, b) := splitAtChar '-' s2; .ok ⟨a, some ('-' :: b), dp, ds.reverse⟩
   else .ok ⟨s2, none, dp, ds.reverse⟩
 
-/-- `int(after)` restricted to ASCII digit strings -/
+/-- ASCII characters that `int()` strips from both ends of its argument -/
+def isPySpace (c : Char) : Bool :=
+  c == ' ' || c == '\t' || c == '\n' || c == '\r' || c == '\x0b' || c == '\x0c'
+
+def dropSpaces : List Char → List Char
+  | [] => []
+  | c :: r => if isPySpace c then dropSpaces r else c :: r
+
+/-- `s.strip()` for ASCII whitespace -/
+def stripPy (s : List Char) : List Char := (dropSpaces (dropSpaces s).reverse).reverse
+
+/-- `digit+ ('_' digit+)*` (single underscores between digit groups): the digits without the underscores -/
+def intDigits : Nat → List Char → Option (List Char)
+  | 0, _ => none
+  | fuel+1, s =>
+    let ds := (takeDigits s).1
+    let r := (takeDigits s).2
+    if ds = [] then none
+    else match r with
+      | [] => some ds
+      | '_' :: r' => (intDigits fuel r').map (ds ++ ·)
+      | _ => none
+
+/-- `int(after)` for ASCII input without a sign: surrounding whitespace is ignored, single underscores between digits
+    are allowed (`int(" 3")`, `int("1_0")`). A sign cannot reach this call from `_get_charge` (the anti-token and the
+    repeated-token checks come first); non-ASCII digits / whitespace are outside the model. -/
 def pyInt (s : List Char) : Option Nat :=
-  if isDigits s then some (digitsVal s) else none
+  (intDigits (s.length + 1) (stripPy s)).map digitsVal
 
 /-- one iteration of the `for token, anti, sign in zip("+-", "-+", (1, -1))` loop:
     `some result` = return / raise, `none` = fall through to the next iteration -/
